@@ -31,6 +31,29 @@ pub fn run(ctx: &Ctx, p: &str) {
         if !rr.ok() { ctx.violation(format!("{p}:cli:signed-size:{kn}:refused"), format!("a well-formed transaction with {n} bytes of calldata is refused: {}", rr.describe()), replay) }
         else if rr.line() != want { ctx.violation(format!("{p}:cli:signed-size:{kn}:wrong-output"), format!("with {n} bytes of calldata the CLI printed {} ({} hex digits); the reference signed transaction is {} ({} hex digits)", trunc(&rr.line(), 60), rr.line().len(), trunc(&want, 60), want.len()), replay) }
     });
+    short_scalar(ctx, p);
+    // the same for the access list: the number of entries and of storage keys moves the total in steps of 21 / 33 bytes
+    let al: Vec<(usize, usize, usize)> = (0..=7).flat_map(|a| (0..=7).flat_map(move |k| [0usize, 60, 150].map(move |n| (a, k, n)))).collect();
+    ctx.sweep("cli-signed-size-access-list", "sign transaction for access lists of 0..=7 entries x 0..=7 storage keys each x calldata of 0 / 60 / 150 bytes x {EIP-2930, EIP-1559}: the reference encoding", (al.len() * 2) as u64, |i| {
+        let (a, k, n) = al[i as usize / 2]; let (kn, kind) = if i % 2 == 0 { ("eip2930", Kind::Eip2930) } else { ("eip1559", Kind::Eip1559) };
+        let mut t = txjson::template(kind, true); t.data = filler_bytes(ctx.seed, 0x517F, n);
+        t.access_list = (0..a).map(|x| ([x as u8 + 0xa0; 20], (0..k).map(|y| [(x * 8 + y) as u8 + 1; 32]).collect())).collect();
+        let text = txjson::tx_json(&t, Spell::Auto).to_text(); let d = t.signing_hash(); let (r, s, odd, _) = curve.sign_rfc6979(&key, &d);
+        let want = format!("0x{}", hex(&t.signed_payload(odd, &r.to_nat(), &s.to_nat())));
+        let cmd = Cmd::new(&["sign", "--mnemonic", GANACHE, "transaction", "-"]).stdin(text.as_bytes()); let rr = cmd.run(Build::Release);
+        let shape = format!("{kn}:entries={a},keys={k},data={n}");
+        let replay = serde_json::json!({"sweep": "cli-signed-size-access-list", "index": i, "entry": "CLI", "command": trunc(&cmd.shown(), 300), "kind": kn, "entries": a, "keys_per_entry": k, "data_len": n, "transaction_json_prefix": trunc(&text, 400)});
+        ctx.sample("cli-signed-size-access-list", || replay.clone());
+        if rr.crashed() { ctx.eval(format!("{shape}:{}", rr.crash_kind())); ctx.panic_violation(format!("{p}:cli:signed-size-access-list:{kn}:{}", rr.crash_kind()), rr.describe(), replay); return; }
+        ctx.eval(format!("{kn}:{}", if rr.ok() { "printed" } else { "refused" }));
+        if !rr.ok() || rr.line() != want { ctx.violation(format!("{p}:cli:signed-size-access-list:{kn}:wrong-output"), format!("with {a} entries of {k} keys and {n} bytes of calldata the CLI printed {} ({:?}); the reference signed transaction is {}", trunc(&rr.line(), 60), rr.status, trunc(&want, 60)), replay) }
+    });
+}
+
+/// size x signature (also part of C15: what `sign transaction` prints is what `hash transaction --signature` hashes)
+pub fn short_scalar(ctx: &Ctx, p: &str) {
+    let curve = Curve::new(); let key = key_of(&curve, GANACHE, "", &default_path(0));
+    let kinds: [(&str, Kind, bool); 4] = [("legacy+chain", Kind::Legacy, true), ("legacy", Kind::Legacy, false), ("eip2930", Kind::Eip2930, true), ("eip1559", Kind::Eip1559, true)];
     // size x signature: a signature whose r or s has a zero top byte is ONE BYTE SHORTER in RLP. Around every length at which the
     // signed payload crosses 55 / 255 / 65535 bytes, transactions whose own signature has a short scalar are looked for by
     // varying the nonce (the reference computes the signature; about one in forty has one) and each is run on the CLI
@@ -49,21 +72,5 @@ pub fn run(ctx: &Ctx, p: &str) {
         if rr.crashed() { ctx.eval(format!("short-scalar:{kn}:{}", rr.crash_kind())); ctx.panic_violation(format!("{p}:cli:signed-size-short-scalar:{kn}:{}", rr.crash_kind()), rr.describe(), replay); return; }
         ctx.eval(format!("short-scalar:{kn}:signed-size-class={}", match total { 0..=57 => "<=57", 58..=257 => "58..=257", 258..=65_538 => "258..=65538", _ => ">65538" }));
         if !rr.ok() || rr.line() != want { ctx.violation(format!("{p}:cli:signed-size-short-scalar:{kn}:wrong-output"), format!("{n} bytes of calldata, nonce {nonce}, a signature with a short scalar (signed size {total}): the CLI printed {} ({:?}); the reference signed transaction is {}", trunc(&rr.line(), 100), rr.status, trunc(&want, 100)), replay) }
-    });
-    // the same for the access list: the number of entries and of storage keys moves the total in steps of 21 / 33 bytes
-    let al: Vec<(usize, usize, usize)> = (0..=7).flat_map(|a| (0..=7).flat_map(move |k| [0usize, 60, 150].map(move |n| (a, k, n)))).collect();
-    ctx.sweep("cli-signed-size-access-list", "sign transaction for access lists of 0..=7 entries x 0..=7 storage keys each x calldata of 0 / 60 / 150 bytes x {EIP-2930, EIP-1559}: the reference encoding", (al.len() * 2) as u64, |i| {
-        let (a, k, n) = al[i as usize / 2]; let (kn, kind) = if i % 2 == 0 { ("eip2930", Kind::Eip2930) } else { ("eip1559", Kind::Eip1559) };
-        let mut t = txjson::template(kind, true); t.data = filler_bytes(ctx.seed, 0x517F, n);
-        t.access_list = (0..a).map(|x| ([x as u8 + 0xa0; 20], (0..k).map(|y| [(x * 8 + y) as u8 + 1; 32]).collect())).collect();
-        let text = txjson::tx_json(&t, Spell::Auto).to_text(); let d = t.signing_hash(); let (r, s, odd, _) = curve.sign_rfc6979(&key, &d);
-        let want = format!("0x{}", hex(&t.signed_payload(odd, &r.to_nat(), &s.to_nat())));
-        let cmd = Cmd::new(&["sign", "--mnemonic", GANACHE, "transaction", "-"]).stdin(text.as_bytes()); let rr = cmd.run(Build::Release);
-        let shape = format!("{kn}:entries={a},keys={k},data={n}");
-        let replay = serde_json::json!({"sweep": "cli-signed-size-access-list", "index": i, "entry": "CLI", "command": trunc(&cmd.shown(), 300), "kind": kn, "entries": a, "keys_per_entry": k, "data_len": n, "transaction_json_prefix": trunc(&text, 400)});
-        ctx.sample("cli-signed-size-access-list", || replay.clone());
-        if rr.crashed() { ctx.eval(format!("{shape}:{}", rr.crash_kind())); ctx.panic_violation(format!("{p}:cli:signed-size-access-list:{kn}:{}", rr.crash_kind()), rr.describe(), replay); return; }
-        ctx.eval(format!("{kn}:{}", if rr.ok() { "printed" } else { "refused" }));
-        if !rr.ok() || rr.line() != want { ctx.violation(format!("{p}:cli:signed-size-access-list:{kn}:wrong-output"), format!("with {a} entries of {k} keys and {n} bytes of calldata the CLI printed {} ({:?}); the reference signed transaction is {}", trunc(&rr.line(), 60), rr.status, trunc(&want, 60)), replay) }
     });
 }
